@@ -1173,11 +1173,20 @@ func (sys *System) ClearLocation(ctx *Context, location string) error {
 	} else {
 		Log(DEBUG, ctx, "System.ClearLocation", "location", location)
 		Metric(ctx, "System.ClearLocation", "location", location)
+		// Clearing removes the location's facts and rules, not the
+		// location: a location that was created stays created.
+		// (Clear wipes the marker along with everything else.)
+		created, _ := locationCreated(ctx, loc)
 		err = loc.Clear(ctx)
 		if err != nil {
 			Log(ERROR, ctx, "System.ClearLocation", "location", location, "error", err, "when", "clear")
 		} else {
 			Log(DEBUG, ctx, "System.ClearLocation", "location", location, "clear", "done")
+			if created {
+				if err = markLocationCreated(ctx, loc); err != nil {
+					Log(ERROR, ctx, "System.ClearLocation", "location", location, "error", err, "when", "markLocationCreated")
+				}
+			}
 		}
 	}
 
